@@ -212,7 +212,7 @@ func checkLexer(c *checkCtx, prop string) {
 		o.modes = true
 		o.epsRules = true
 		o.accum = true
-		c.cov.Rule = "rule sets including rules that can match the empty string and accumulating fragments; every emitted table must satisfy progress_ok (hypothesis of lex_total / lex_tiling); inputs are valid texts cut at every position; the lexer must reach EOF with every byte accounted for"
+		c.cov.Rule = "rule sets including rules that can match the empty string and accumulating fragments; modes whose only rule begins with a star loop (start state looping on itself), rule-less modes; every emitted table must be structurally well-formed (hypothesis of lex_total); inputs are valid texts (also texts that walk through the modes) cut at every position; the lexer must reach EOF with every byte accounted for"
 	}
 	c.coqObligations()
 	if prop == "C10" {
@@ -289,8 +289,11 @@ func checkLexer(c *checkCtx, prop string) {
 			if o.modes && k%4 == 3 {
 				in = j.sp.genInputErrorInMode(c.rng)
 			}
+			if o.modes && k%4 == 1 {
+				in = j.sp.genInputModeWalk(c.rng)
+			}
 			add(in)
-			if prop == "C11" && k < 6 {
+			if prop == "C11" && k < 8 {
 				for cut := 1; cut < len(in); cut++ {
 					add(in[:cut])
 				}
